@@ -111,6 +111,8 @@ class ProgCheck(Check):
                 name, _, val = ent.partition(":")
                 got = dump["syms"].get(name)
                 if got is None:
+                    if c.meta.get("family") == "stepwise":
+                        continue        # statement-at-a-time: a statement after the one that ended the run was never compiled
                     return self.record_violation("variable %s missing in the implementation" % name, c, outcome, m2)
                 if strip_flags(got[2]) != val:
                     return self.record_violation("variable %s = %s, the model gives %s" % (name, strip_flags(got[2]), val), c, outcome, m2)
